@@ -29,6 +29,12 @@ Sub-checks (names usable with --only):
           calls).  Ordered pairs (A, X) of bases with different reference reports; quick: 3 bases,
           op = find_strategies; thorough: 5 bases, op = find_strategies and each fast strategy's
           applies().
+  mixed : the slow strategy on bases mixing short and long patterns: one pattern of length 3..4 + one of
+          length 5 (thorough: also two short + one long), every orbit classified with the reference
+          (special-simples families of mc/ref_c16.py); the library runs on the orbits where a sub-basis
+          alone gives a different answer from the whole basis (+ controls); observers of `slow` plus an
+          independent verdict (special simples infinite => not reported; special simples finite and
+          pin words extinct before length 16 => reported).
   slow  : the slow strategy.  find_strategies(b, True) == fast report + slow verdict,
           find_strategies(b, False) == find_strategies(b, True) minus the slow strategies, the slow
           verdict == PinWords.has_finite_simples(b) (the class test), FinitelyManySimplesStrategy(b)
@@ -54,6 +60,7 @@ import time
 
 from .. import refmodel as R
 from .. import ref_c19 as F
+from .. import ref_c16 as G16
 from ..core import Partial
 
 PROPERTY = "C19"
@@ -476,6 +483,125 @@ def check_slow(part, basis, direct=True, separate=True):
     return verdict
 
 
+# ---- mixed lengths for the slow strategy ----------------------------------------------------
+# Reference for "finitely many special simples" (alternations / wedge simples, Brignall-Ruskuc-
+# Vatter) from mc/ref_c16.py: the 20 families' members of length 14 and their patterns of length
+# <= 5 (self-checked there: nesting + stabilisation), so for bases of patterns of length <= 5:
+# special simples finite <=> every one of the 20 long members contains a basis element.
+
+MIX = {"ds": None}
+PIN_HORIZON = 16
+
+
+def build_mixed_reference():
+    if MIX["ds"] is None:
+        ok, msg, members = G16.family_selfcheck(5, 14, 2)
+        if not ok:
+            raise RuntimeError("special-simples reference self-check failed: " + msg)
+        MIX["ds"] = [G16.downset(m, 5) for _kind, m in members]
+
+
+def ref_special_finite(basis):
+    return all(any(b in ds[len(b)] for b in basis) for ds in MIX["ds"])
+
+
+def classify_mixed(basis):
+    short = [b for b in basis if len(b) <= 4]
+    long_ = [b for b in basis if len(b) >= 5]
+    whole = ref_special_finite(basis)
+    return whole, ref_special_finite(short), ref_special_finite(long_)
+
+
+def check_mixed(part, basis):
+    """Slow observers on a basis mixing short and long patterns, plus the independent verdict:
+    special simples infinite => not reported; special simples finite and no pin word of length
+    PIN_HORIZON avoids the basis (the pin permutations die out) => reported."""
+    verdict = check_slow(part, basis, True, False)
+    whole, short, long_ = classify_mixed(basis)
+    case = {"basis": basis, "kind": "mixed"}
+    if verdict is None:
+        return verdict
+    detail = {"strategy_reported": verdict, "special_simples_finite(whole basis)": whole,
+              "special_simples_finite(short part alone)": short,
+              "special_simples_finite(long part alone)": long_}
+    if not whole:
+        part.bump("mixed_ref_infinite_by_special_simples")
+        if verdict is not False:
+            part.violation("fms-mixed", case, detail)
+    else:
+        e = G16.pin_extinction_for_basis(basis, PIN_HORIZON)
+        if e < PIN_HORIZON:
+            part.bump("mixed_ref_finite")
+            if verdict is not True:
+                detail["pin_words_extinct_at_length"] = e
+                part.violation("fms-mixed", case, detail)
+        else:
+            part.bump("mixed_ref_inconclusive_pin_alive_at_horizon")
+    return verdict
+
+
+def shard_mixed(shard):
+    lo, hi, work = shard
+    t0 = time.process_time()
+    os.makedirs(work, exist_ok=True)
+    os.chdir(work)
+    part = Partial()
+    for b, sel in POOLS["mixed"][lo:hi]:
+        v = check_mixed(part, b)
+        part.add(1, 1 if sel else 0)
+        if sel:
+            part.sample({"pool": "mixed", "basis": b, "slow_verdict": v,
+                         "special_simples_finite (whole, short part, long part)": classify_mixed(b)},
+                        cap=1)
+    return part, time.process_time() - t0
+
+
+def build_mixed_pool(quick):
+    """Orbit representatives of {short pattern(s)} + {one pattern of length 5}; returns counts."""
+    build_mixed_reference()
+    S5 = R.perms(5)
+    shorts1 = [(p,) for n in (3, 4) for p in R.perms(n)]
+    fams = [("pairs", shorts1)]
+    if not quick:
+        sp = [p for n in (3, 4) for p in R.perms(n)]
+        fams.append(("triples", list(itertools.combinations(sp, 2))))
+    pool, info = [], {}
+    seen = set()
+    for fam, shorts in fams:
+        reps = {}
+        for sh in shorts:
+            for q in S5:
+                reps.setdefault(R.sym_class_rep(sh + (q,)), None)
+        reps = sorted((canon(r) for r in reps), key=_key)
+        selected, controls = [], []
+        for b in reps:
+            whole, short, long_ = classify_mixed(b)
+            # a sub-basis alone gives a different answer and the whole basis is needed
+            (selected if (whole and not short and not long_) else controls).append(b)
+        if quick:
+            ctrl = controls[::8]
+        elif fam == "pairs":
+            ctrl = controls
+        else:
+            ctrl = controls[::16]
+        run = [(b, True) for b in selected] + [(b, False) for b in ctrl]
+        if not quick and fam == "pairs":
+            # every symmetric image of the selected pairs as well
+            for b in selected:
+                run += [(canon(i), True) for i in F.sym_images(b)]
+        n0 = len(pool)
+        for b, sel in run:
+            if b not in seen:
+                seen.add(b)
+                pool.append((b, sel))
+        info[fam] = {"raw_bases_enumerated": len(shorts) * len(S5), "orbits": len(reps),
+                     "selected_sub_basis_answers_differ": len(selected),
+                     "controls_available": len(controls), "controls_run": len(ctrl),
+                     "run": len(pool) - n0}
+    POOLS["mixed"] = pool
+    return info
+
+
 # --------------------------------------------------------------------------------------------
 # pools (built in the parent, inherited by fork)
 # --------------------------------------------------------------------------------------------
@@ -542,7 +668,7 @@ def build_pools(quick):
     # slow pool: entries (basis, direct class test?, separate applies()?)
     reps = {R.sym_class_rep(b) for b in small}
     if quick:
-        slow = [(b, True, b in reps) for b in small if len(b) <= 2]
+        slow = [(b, b in reps, b in reps) for b in small if len(b) <= 2]
         slow += [(b, True, False) for b in small
                  if len(b) == 3 and b in reps and sum(1 for p in b if len(p) == 4) <= 1]
     else:
@@ -714,6 +840,34 @@ def run(ctx, only=None):
         ctx.section("abort", histories=len(shards), injection_points=points,
                     aborted_executions=sum(r[1] for r in res), evaluations=ctx.evals - e0,
                     cpu_s=round(sum(r[2] for r in res), 1))
+    if want("mixed"):
+        e0, n0 = ctx.evals, ctx.nontrivial
+        build_simples()
+        info = build_mixed_pool(quick)
+        # the pin-word table for length 5 is built once here and inherited by the workers
+        _call(lambda: _lib()[4].perm_to_pinword_mapping(5))
+        n = len(POOLS["mixed"])
+        per = 3
+        shards = [(lo, min(n, lo + per), os.path.join(ctx.work, "mixed%d" % i))
+                  for i, lo in enumerate(range(0, n, per))]
+        res = ctx.pmap(shard_mixed, shards)
+        ctx.bounds["mixed"] = {
+            "family": "one pattern of length 3 or 4 + one pattern of length 5%s, up to the eight symmetries"
+                      % ("" if quick else "; two patterns of length 3..4 + one of length 5"),
+            "selection": "reference (special-simples families of mc/ref_c16.py) on every orbit: "
+                         "selected = special simples finite for the whole basis but infinite for the "
+                         "short part alone and for the long part alone; controls = %s"
+                         % ("every 8th of the other orbits" if quick else
+                            "pairs: all other orbits (+ every image of the selected pairs); "
+                            "triples: every 16th of the other orbits"),
+            "observers": "find_strategies(b, True) / (b, False), class test has_finite_simples, "
+                         "independent verdict (special simples + pin words to length %d)" % PIN_HORIZON,
+            "counts": info,
+        }
+        ctx.section("mixed", run=n, evaluations=ctx.evals - e0, nontrivial=ctx.nontrivial - n0,
+                    cpu_s=round(sum(res), 1), **{k: "%d/%d/%d" % (v["orbits"],
+                                                                  v["selected_sub_basis_answers_differ"],
+                                                                  v["run"]) for k, v in info.items()})
     if want("slow"):
         e0, n0 = ctx.evals, ctx.nontrivial
         build_simples()
@@ -740,7 +894,7 @@ def run(ctx, only=None):
         ctx.bump("image_pairs_compared", pairs)
         ctx.bounds["slow"] = ("%d bases: %s" % (
             len(POOLS["slow"]),
-            "all of Bases(2,4) (class test; separate applies() on one representative per orbit) + one representative per symmetry "
+            "all of Bases(2,4) (class test and separate applies() on one representative per orbit, the other images by orbit equality) + one representative per symmetry "
             "orbit of the 3-element bases of Bases(3,4) with at most one pattern of length 4 (class test)"
             if quick else
             "all of Bases(3,4) (class test + separate applies() on one representative per orbit, the "
@@ -764,6 +918,10 @@ def replay(ctx, rec):
         check_fast(part, basis, int(case.get("nvar", 4)), bool(case.get("twice", True)))
     elif kind == "report":
         check_report(part, basis)
+    elif kind == "mixed":
+        build_simples()
+        build_mixed_reference()
+        check_mixed(part, basis)
     elif kind == "abort":
         abort_execution(part, canon(case["warm"]), basis, case["op"], int(case["k"]), case["order"])
     elif kind == "stale":
